@@ -153,24 +153,31 @@ Section Http.
 
   Definition last_xenc (p : list hfilter) : option hfilter := last (map Some p) None.
 
+  (* the Set/Add calls in program order *)
+  Definition ops_common (ops0 : list hop) (m : msg) : list hop :=
+    ops0 ++ [HSet K_seq (format_int 10 (m_seq m));
+             HSet K_mtype (format_int 10 (byte_z (m_mtype m)))]
+         ++ meta_ops (m_meta m).
+  Definition ops_request (ops0 : list hop) (m : msg) (host : bytes) (clen : N) : list hop :=
+    ops_common ops0 m ++ (match host with [] => [] | _ => [HSet (str "Host") host] end)
+    ++ [HSet (str "User-Agent") (str "erpc-httproto/1.1");
+        HSet K_ctype (content_type (m_codec m) (str "text/plain;charset=utf-8"));
+        HSet K_clen (format_int 10 (Z.of_N clen));
+        HSet (str "Accept-Encoding") (str "gzip")].
+  Definition ops_response (ops0 : list hop) (m : msg) (ctype : bytes) (clen : N) : list hop :=
+    ops_common ops0 m ++ [HSet K_ctype ctype; HSet K_clen (format_int 10 (Z.of_N clen))].
+
   (* frame and size; the status is the message's own (not Status(true)) *)
   Definition http_pack (lim : N) (p : list hfilter) (m : msg) : res (bytes * N) :=
     match http_pipe p (m_body m) [] with
     | None => Err
     | Some (body, ops0) =>
-        let ops1 := ops0 ++ [HSet K_seq (format_int 10 (m_seq m));
-                             HSet K_mtype (format_int 10 (byte_z (m_mtype m)))]
-                         ++ meta_ops (m_meta m) in
         let mt := b2n (m_mtype m) in
         if (mt =? 1) || (mt =? 4) then
           match url_parse (m_method m) with
           | None => Err
           | Some (path, rawq, host) =>
-              let ops := ops1 ++ (match host with [] => [] | _ => [HSet (str "Host") host] end)
-                         ++ [HSet (str "User-Agent") (str "erpc-httproto/1.1");
-                             HSet K_ctype (content_type (m_codec m) (str "text/plain;charset=utf-8"));
-                             HSet K_clen (format_int 10 (Z.of_N (blen body)));
-                             HSet (str "Accept-Encoding") (str "gzip")] in
+              let ops := ops_request ops0 m host (blen body) in
               let target := match rawq with [] => path | _ => path ++ "?"%byte :: rawq end in
               let f := str "POST " ++ target ++ str " HTTP/1.1" ++ crlf
                        ++ ser_lines (hdr_write ops) ++ crlf ++ body in
@@ -178,8 +185,7 @@ Section Http.
           end
         else if (mt =? 2) || (mt =? 5) then
           if status_ok (m_status m) then
-            let ops := ops1 ++ [HSet K_ctype (content_type (m_codec m) (str "text/plain"));
-                                HSet K_clen (format_int 10 (Z.of_N (blen body)))] in
+            let ops := ops_response ops0 m (content_type (m_codec m) (str "text/plain")) (blen body) in
             let f := str "HTTP/1.1 200 OK" ++ crlf ++ ser_lines (hdr_write ops) ++ crlf ++ body in
             Ok (f, final_size lim (blen f))
           else
@@ -190,8 +196,7 @@ Section Http.
                    end) with
             | None => Err
             | Some sb =>
-                let ops := ops1 ++ [HSet K_ctype (str "application/json");
-                                    HSet K_clen (format_int 10 (Z.of_N (blen sb)))] in
+                let ops := ops_response ops0 m (str "application/json") (blen sb) in
                 let f := str "HTTP/1.1 299 Business Error" ++ crlf
                          ++ ser_lines (hdr_write ops) ++ crlf ++ sb in
                 Ok (f, final_size lim (blen f))
